@@ -164,15 +164,16 @@ class Solver(ABC):
                 raise ValueError("Must provide either problem instance or config")
             self.problem = instantiate(self.config.problem)
 
+        # Set up precision (before any array is created, so that the discount
+        # factor is not rounded to single precision)
+        self.jax_double_precision = self.config.jax_double_precision
+        if self.jax_double_precision:
+            jax.config.update("jax_enable_x64", True)
+
         # Store core attributes
         self.gamma = jnp.array(self.config.gamma)
         self.epsilon = self.config.epsilon
         self.max_batch_size = self.config.max_batch_size
-
-        # Set up precision
-        self.jax_double_precision = self.config.jax_double_precision
-        if self.jax_double_precision:
-            jax.config.update("jax_enable_x64", True)
 
         # Set up logging
         self.set_verbosity(self.config.verbose)
@@ -225,7 +226,12 @@ class Solver(ABC):
 
         initial_values = self._unbatch_results(padded_batched_initial_values)
 
-        return initial_values
+        # Give the values the requested precision explicitly: initial values are
+        # weakly typed (or follow the problem's arrays, which are single precision
+        # when the problem was created before 64-bit mode was enabled)
+        return initial_values.astype(
+            jnp.float64 if self.jax_double_precision else jnp.float32
+        )
 
     def _calculate_initial_value_state_batch(
         self, carry, state_batch: StateBatch
